@@ -819,13 +819,14 @@ struct Case {
 
 static Profile makeProfile(World& w) {
 	Profile p;
-	const uint32_t k = w.ch.pick({5, 3, 3, 2, 2});
+	const uint32_t k = w.ch.pick({5, 3, 3, 2, 2, 1});
 	switch (k) {
 	case 0: break;
 	case 1: p.name = "guard-hostile"; p.guardActs = 75; p.cbActs = 35; p.wExtChange = 20; p.wImmediate = 16; break;
 	case 2: p.name = "plan-heavy"; p.cbActs = 45; p.wReport = 14; p.wPlan = 12; p.wExtPlan = 22; p.wExtReport = 12; p.wChange = 4; p.guardActs = 12; p.lifeActs = 15; break;
 	case 3: p.name = "ping-pong"; p.pingPong = true; p.wExtChange = 20; p.wImmediate = 20; p.cbActs = 15; break;
-	default: p.name = "calm"; p.cbActs = 8; p.guardActs = 6; p.lifeActs = 2; break;
+	case 4: p.name = "calm"; p.cbActs = 8; p.guardActs = 6; p.lifeActs = 2; break;
+	default: p.name = "relentless"; p.pingPong = true; p.relentless = true; p.wExtChange = 20; p.wImmediate = 25; p.cbActs = 10; break;
 	}
 	return p;
 }
